@@ -10,6 +10,7 @@ One output line per input line.
   sites                   → every lifetime-manufacturing site: kind fn unsafe? file:line
   unsafe_rows             → `name @ file:line` of every row with nameUnchecked ∨ hasSafetyDoc ∨
                             forwardsToUnsafe (the rows that MUST be unsafe fns)
+  copy_rows               → `name @ file:line` of every row that must require `T: Copy`
   escape_exempt <row>     → 1 iff the row is a reviewed borrowed-view / never-borrowed function
                             (its result may legitimately outlive a `&self` receiver) | 0 | err
   tied <row name>         → 1 (safe, every output region tied to an input: a borrow cannot
@@ -128,6 +129,9 @@ def rowsC17 : List String :=
   let fw := fns.filterMap fun f =>
     if forwarderOk f then none else
       some s!"forwarders_are_unsafe: {f.name} is a safe fn that only forwards its parameters to `{f.forwardsToUnsafe.getD "?"}` in unsafe context @ {f.loc}"
+  let bc := fns.filterMap fun f =>
+    if bitwiseCopyOk f then none else
+      some s!"bitwise_copy_requires_copy: {f.name} duplicates element bits ({if nameSaysCopy f then "by name" else ""}{if bodyDuplicates f then s!" body: {f.dupBits.getD "?"}" else ""}) but `{decKey f.elemParam}: Copy` is not in force (bounds: {f.boundsShown}) @ {f.loc}"
   let b := fns.filterMap fun f =>
     if nameFlagOk f then none else
       some s!"name_unchecked_consistent: {f.name} @ {f.loc}"
@@ -143,7 +147,7 @@ def rowsC17 : List String :=
     s!"unsafe_lifetime_sites: reviewed entry no longer present: {showKind k.1} in {decKey k.2.1} unsafe_fn={k.2.2}"
   let h := if HipVerif.Gen.PubFns.sites.length == reviewedSites.length || !(e.isEmpty && g.isEmpty) then []
     else [s!"unsafe_lifetime_sites: {HipVerif.Gen.PubFns.sites.length} sites generated, {reviewedSites.length} reviewed (a reviewed fn gained or lost a site)"]
-  a ++ fw ++ b ++ c ++ d ++ e ++ g ++ h
+  a ++ fw ++ bc ++ b ++ c ++ d ++ e ++ g ++ h
 
 def rowsC06 : List String :=
   let ds := HipVerif.Gen.Doors.doors
@@ -211,6 +215,8 @@ def answer (line : String) : String :=
   | ["unsafe_rows"] =>
     join ((HipVerif.Gen.PubFns.pubFns.filter mustBeUnsafe).map
       fun f => s!"{f.name} @ {f.loc}")
+  | ["copy_rows"] =>
+    join ((HipVerif.Gen.PubFns.pubFns.filter needsCopy).map fun f => s!"{f.name} @ {f.loc}")
   | "tied" :: rest => tiedAnswer (String.intercalate " " rest)
   | "escape_exempt" :: rest =>
     match HipVerif.Gen.PubFns.pubFns.find? (fun f => f.name == String.intercalate " " rest) with
